@@ -91,7 +91,8 @@ def truncChars (d : Nat) (s : List Char) : List Char :=
   | [] => []
 
 /-- Parameters of one write: `decimals`, and for every repr in exponent notation what `format(f, ".{d}f")` gives
-    (a function of the float, not of its repr: supplied by the harness, contract `FixOk` in the theorems). -/
+    (a function of the float, not of its repr: supplied by the harness; coverage `FixCovered` is part of `ok`, the numeric
+    contract is `FixOk` in CRProofs/DecVal.lean). -/
 structure Params where
   d : Nat
   fix : List (String × String)
@@ -105,19 +106,33 @@ def lookupFix (s : String) : List (String × String) → Option String
 
 /-- `float_to_str(np.float64(x))` as a function of `str(np.float64(x))` -/
 def floatToStr (P : Params) (s : String) : String :=
-  if s.toList.contains 'e' then (lookupFix s P.fix).getD s
+  if s.toList.contains 'e' then
+    match lookupFix s P.fix with
+    | some v => v
+    | none => ""      -- the table has no entry: excluded by `FixCovered` (part of `ok` of every real leaf)
   else String.ofList (truncChars P.d s.toList)
+
+/-- the `fix` table knows this repr if it is in exponent notation -/
+def FixCovered (P : Params) (s : String) : Prop := s.toList.contains 'e' = true → (lookupFix s P.fix).isSome = true
+
+/-- the `pos` table knows this repr if it is in exponent notation -/
+def PosCovered (P : Params) (s : String) : Prop :=
+  (s.toList.contains 'e' || s.toList.contains 'E') = true → (lookupFix s P.pos).isSome = true
 
 /-- `decimal_to_str(x)` (file_writer_xml.py:77-86) as a function of `str(x)`: the repr itself, unless it is in exponent
     notation — then the positional form of the same value -/
 def decimalToStr (P : Params) (s : String) : String :=
-  if s.toList.contains 'e' || s.toList.contains 'E' then (lookupFix s P.pos).getD s else s
+  if s.toList.contains 'e' || s.toList.contains 'E' then
+    match lookupFix s P.pos with
+    | some v => v
+    | none => ""      -- excluded by `PosCovered`
+  else s
 
 /-- a real written with `decimal_to_str` (rectangle length / width / orientation, circle radius): all digits, no truncation -/
-def Prim.decPlain (P : Params) : Prim String := ⟨decimalToStr P, some, decimalToStr P, fun _ => True⟩
+def Prim.decPlain (P : Params) : Prim String := ⟨decimalToStr P, some, decimalToStr P, PosCovered P⟩
 
 /-- a real written with `float_to_str` and read with `float(text)` (the double nearest to the decimal text; the model keeps the text) -/
-def Prim.dec (P : Params) : Prim String := ⟨floatToStr P, some, floatToStr P, fun _ => True⟩
+def Prim.dec (P : Params) : Prim String := ⟨floatToStr P, some, floatToStr P, FixCovered P⟩
 
 /-! ## element codecs -/
 
